@@ -56,6 +56,17 @@ def gen(rng):
 
 def cases(rng, tier):
     n_ = {"quick": 300, "thorough": 5000}.get(tier, 200)
+    # systematically: every operation kind as the ONLY step before restore_original, then one more step
+    for kind in W.DOMAIN + W.RESHAPE:
+        for _ in range(1 if tier != "thorough" else 5):
+            c = W.gen_init(rng, 5, 10)
+            op = W.gen_domain_op(rng, [kind]) if kind in W.DOMAIN else W.gen_reshape_op(rng, [kind])
+            if op["op"] == "trunc_i":
+                op["safe"] = True
+            if op["op"] == "recreate":
+                op["n"] = 2
+            c["ops"] = [op, {"op": "restore"}, W.gen_domain_op(rng, ["shift_y", "append", "repeat"])]
+            yield c
     for _ in range(n_):
         yield gen(rng)
 
